@@ -825,15 +825,20 @@ def derives_from_param_(fn, prov, e):
     return any(derives_from_param(fn, prov, e, i) for i in range(1, fn.arg_count + 1) if fn.local_ty(i).replace(' ', '') == '&[u8]')
 
 
-@rule('FORMAT-OVERRIDES', ['C19', 'C02'], floor=4)
+@rule('FORMAT-OVERRIDES', ['C19', 'C02'], floor=5)
 def format_overrides(ctx):
     """A container whose header cannot carry an LZMA parameter fixes that parameter itself: the LZIP writer
     (format constants lc=3, lp=0, pb=2, no preset dictionary) overwrites the corresponding option fields in
     its constructor with constants before any encoder is created, whatever the caller put there."""
     F = ctx.facts
-    ctors = [f for f in methods_of(F, 'LZIPWriter') if f.name == 'new']
+    _format_overrides_of(ctx, F, 'LZIPWriter', {'lc': 3, 'lp': 0, 'pb': 2, 'preset_dict': None}, '.lz')
+    _format_overrides_of(ctx, F, 'XZWriter', {'preset_dict': None}, '.xz')
+
+
+def _format_overrides_of(ctx, F, adt, need, fmt):
+    ctors = [f for f in methods_of(F, adt) if f.name == 'new']
     if not ctors:
-        return ctx.anchor_missing('LZIPWriter::new')
+        return ctx.anchor_missing('%s::new' % adt)
     f = ctors[0]
     prov = Prov(f)
     stored = {}
@@ -848,14 +853,13 @@ def format_overrides(ctx):
             if 'LZMAOptions' in owners and names:
                 e = prov.rvalue(s['rv'], 0, '%d:%d' % (bi, si))
                 stored[names[-1]] = (bi, si, e)
-    # fields the LZMA options have that a decoder must know and the .lz header does not carry
-    need = {'lc': 3, 'lp': 0, 'pb': 2, 'preset_dict': None}
+    # fields the LZMA options have that a decoder must know and the container header does not carry
     for name, val in need.items():
-        key = 'LZIPWriter::new:overrides-%s' % name
+        key = '%s::new:overrides-%s' % (adt, name)
         if name not in stored:
-            ctx.violation(key, f.loc(0), 'the .lz header has no field for `%s` and the readers assume %s, but LZIPWriter::new leaves the '
-                          'caller\'s value in the options handed to the encoder: the member cannot be decoded' % (
-                              name, 'no preset dictionary' if val is None else str(val)))
+            ctx.violation(key, f.loc(0), 'the %s header has no field for `%s` and the readers assume %s, but %s::new leaves the '
+                          'caller\'s value in the options handed to the encoder: the file cannot be decoded' % (
+                              fmt, name, 'no preset dictionary' if val is None else str(val), adt))
             continue
         bi, si, e = stored[name]
         if val is None:
